@@ -315,7 +315,19 @@ impl C20 {
 
     fn gen_pos(t: &mut Tape, text: &str) -> (u32, u32) {
         let ls = lines_of(text);
-        match t.weighted(&[8, 2, 2, 1, 1]) {
+        match t.weighted(&[4, 2, 2, 1, 1, 6]) {
+            5 => {
+                // inside a word: names are what hover / definition / completion answer about
+                let words: Vec<usize> = text.char_indices().filter(|(_, c)| c.is_alphanumeric() || *c == '_').map(|(i, _)| i).collect();
+                if words.is_empty() {
+                    return (0, 0);
+                }
+                let off = words[t.choice(words.len())];
+                let before = &text[..off];
+                let line = before.matches('\n').count();
+                let col = before.rsplit('\n').next().unwrap().encode_utf16().count();
+                (line as u32, col as u32 + t.choice(2) as u32)
+            }
             0 => {
                 // a character position inside the text (token starts and insides alike)
                 let starts: Vec<usize> = text.char_indices().map(|(i, _)| i).collect();
